@@ -159,7 +159,7 @@ _TRANSLATED = {
     "C08": "serverSaltGenerator.splitSalt / IsServerSalt, MakeCipherEntry, the function literal of NewShadowsocksStreamAuthenticator",
     "C09": "newCipherListFromConfig, MakeCipherEntry",
     "C10": "Config.Validate",
-    "C15": "measuredConn.Read / Write / WriteTo / ReadFrom, streamHandler.handleConnection, ssService.HandleStream",
+    "C15": "measuredConn.Read / Write / WriteTo / ReadFrom, streamHandler.Handle, streamHandler.handleConnection, ssService.HandleStream",
     "C16": "packetHandler.validatePacket",
     "C20": "GetIPInfoFromIP, GetIPInfoFromAddr",
 }
